@@ -5,14 +5,14 @@ CONSTANTS
   L1Table <- MCL1Table
   SJTable <- MCSJTable
   Mutant = "none"
-  MaxChunk = 6
-  PlumbLen = 0
-  FragLen = 5
-  FragLen2 = 4
-  FragLenSJ = 4
-  FragAll = TRUE
+  MaxChunk = 5
+  PlumbLen = 1
+  FragLen = 2
+  FragLen2 = 1
+  FragLenSJ = 1
+  FragAll = FALSE
   FragAlpha = "frag"
-  WithPlumb = FALSE
+  WithPlumb = TRUE
   WithFrag = TRUE
-INVARIANTS TypeOK DesignOK MachineOK Emitted
+INVARIANTS TypeOK DesignOK MachineOK
 VIEW View
